@@ -1037,6 +1037,8 @@ func runC20(c *Ctx) int {
 	run.Floor("observe_calls", int64(c.Pick(250000, 5000000)))
 	run.Floor("failing_results_observed", int64(c.Pick(50000, 1000000)))
 	run.Floor("series_checked", int64(c.Pick(8000, 150000)))
+	c20CLI(c, run)
+	run.Floor("cli_attacks_scraped", int64(c.Pick(2, 8)))
 	run.Floor("histogram_bucket_checks", int64(c.Pick(30000, 500000)))
 	run.Floor("fail_counter_series_checked", int64(c.Pick(2000, 50000)))
 	run.Floor("scrapes_cross_checked", int64(nSeq))
